@@ -130,6 +130,21 @@ fn atom<W: Write>(t: &Tables, thorough: bool, rng: &mut Rng, out: &mut W) {
     for n in 0..=1000 { read_req(out, &format!("[{}C]", n)); read_req(out, &format!("[C:{}]", n)) }
     for s in ["00", "000", "0000", "007", "0999", "1000", "9999"].iter() { read_req(out, &format!("[{}C]", s)); read_req(out, &format!("[C:{}]", s)) }
     for s in ["[C:]", "[C:", "[C:x]", "[C:1", "[C:1x]", "[C:é]", "[:1]", "[1]", "[1", "[", "[]", "[C]]", "[[C]"].iter() { read_req(out, s) }
+    // non-ASCII numeric characters (Arabic-Indic, fullwidth, superscript, other scripts) at every digit position
+    let weird = ['\u{663}', '\u{ff11}', '\u{b2}', '\u{0967}', '\u{1d7d9}', '\u{2460}', '\u{bd}', '\u{e9}'];
+    for tpl in ["[13C]", "[C:12]", "[C:1]", "[CH3]", "[C+12]", "[C-3]", "[C@TB12]", "[C@OH25]", "[C@TH1]", "[C@SP3]", "[C@AL2]", "C1CC1",
+                "C%12CC%12", "[12CH2+3:456]", "[123C:7]", "C=1CC=1", "[C@@H2+:0]"].iter() {
+        let cs: Vec<char> = tpl.chars().collect();
+        for i in 0..cs.len() {
+            if cs[i].is_ascii_digit() || cs[i] == ':' || cs[i] == '%' || cs[i] == '+' {
+                for &w in weird.iter() {
+                    let mut m = cs.clone(); m[i] = w; read_req(out, &m.iter().collect::<String>());
+                    let mut m = cs.clone(); m.insert(i + 1, w); read_req(out, &m.iter().collect::<String>());
+                    let mut m = cs.clone(); m.insert(i, w); read_req(out, &m.iter().collect::<String>());
+                }
+            }
+        }
+    }
     // random full bracket atoms: all six fields
     let n = if thorough { 200000 } else { 20000 };
     for _ in 0..n {
@@ -281,7 +296,7 @@ fn rand_smiles(t: &Tables, rng: &mut Rng, budget: &mut usize, depth: usize, open
 }
 
 fn mutate(rng: &mut Rng, s: &str) -> String {
-    let alphabet: Vec<char> = "CNOcn()[].=#$:/\\-+%@H0123456789*lrBFSPIsea \u{e9}".chars().collect();
+    let alphabet: Vec<char> = "CNOcn()[].=#$:/\\-+%@H0123456789*lrBFSPIsea \u{e9}\u{663}\u{ff11}\u{b2}".chars().collect();
     let mut cs: Vec<char> = s.chars().collect();
     if cs.is_empty() { return alphabet[rng.below(alphabet.len())].to_string() }
     let i = rng.below(cs.len());
